@@ -536,6 +536,13 @@ struct Engine : public vf::Engine {
             }
         } else {
             // exactly one failure for the misusing test, and everybody could still allocate afterwards (checked by the lock oracles above)
+            // ... and the failure says which misuse it was (one of the detector's three headlines; with the junit output the text sits in the simulated file)
+            if (testFailures == 1) {
+                Str text = testFailureText == "(junit output)" ? Str() : testFailureText;
+                if (testFailureText == "(junit output)") for (size_t i = 0; i < simIO().files.size(); i++) text += simIO().files[i]->data;
+                bool named = text.find("Deallocating non-allocated memory") != Str::npos || text.find("Allocation/deallocation type mismatch") != Str::npos || text.find("Memory corruption") != Str::npos;
+                if (!named) r.fail("C10", "misuse_report_text", sg("what", "the failure does not say which misuse was detected"), text.substr(0, 300));
+            }
             if (testFailures != 1) r.fail("C10", "misuse_reported_once", sg("what", testFailures == 0 ? "misuse not reported as a test failure" : "more than one failure"), sfmt("%zu failures recorded for the misusing test: %s", testFailures, testFailureText.substr(0, 300).c_str()));
         }
 
